@@ -1086,8 +1086,11 @@ protected:         // More utilities
         result.constant_term(
               er.constant_term() * el.constant_term());
       }
-      result.GetQPTerms().add(er.GetQPTerms());
-      result.GetQPTerms() *= el.constant_term();
+      {                     // Scale only er's QP terms: result
+        auto qt2 = er.GetQPTerms();   // can already have el's
+        qt2 *= el.constant_term();
+        result.GetQPTerms().add(qt2);
+      }
     }
     const auto& ae1 = el.GetLinTerms();
     const auto& ae2 = er.GetLinTerms();
